@@ -176,22 +176,20 @@ DONE = {
   'Empty intersections hit known finding F17 in intersect(). Print Assumptions: closed under the global context.'),
  'C02': ('§5.C02',
   'The coordinate formatter, the atom-name aligner and the sequence of format specifications of data2pdb are regenerated from the source '
-  'on every run; Coq proves for all rationals that a coordinate raises exactly outside (-1e7+0.5, 1e8-0.5) and otherwise occupies exactly 8 '
-  'columns with the decimals of the interval table and a rounding error of at most half a unit, and that every row fitting its field widths '
-  'is written as exactly 80 columns, every piece of the layout occupying exactly its own columns, which today are the wwPDB columns; '
-  'integer and text fields read back exactly; float() of any fixed-point field the exporter writes is the printed decimal rounded once to '
-  'binary64, so the regenerated parser (parse_field over the regenerated column table) reads from the exported line of any fitting row each '
-  'coordinate within half a unit of the printed precision and occupancy/B-factor within 0.005; composed into the whole-row round trip '
-  '(parse_record of the exported line = the row itself in every integer/text attribute, the printed decimals in the numeric ones) for rows with '
-  'strip-stable text and a non-empty chain, carried to the property\'s own comparison (approx_row) with a proved 2^-53 bound on the binary64 '
-  'rounding of the re-read decimal, and refuted for an empty chain (F24). Re-export '
-  'and canonical-record reproduction are decided on every run by the executable Coq specification applied to the implementation output '
-  '(threshold windows, wide tables, bundled files).',
-  'regenerated Gallina model + Coq theorems (digit-length lemmas, lra cell decomposition) + executable Coq spec applied to implementation output',
-  'CPython str.format / float() modelled in PyLib.v (fixed-point formatting correctly rounded on the exact binary value). PARTIAL: the closed form of '
-  '"as many decimals as fit" (max_fit; proved in the direction the round trip needs) and idempotence of re-export are checked by the executable spec and by implementation = model, not proved. '
-  'Known finding F24 (empty chain identifier: exported, not re-readable; C02_blank_chain_refuted). '
-  'Print Assumptions: closed under the global context.'),
+  'on every run, as are the parser\'s column table, defaults and guards (C01). Coq proves for every row that fits its field widths: the line is '
+  'exactly 80 columns; every piece occupies its own columns, which today are the wwPDB columns; a coordinate raises exactly outside '
+  '(-1e7+0.5, 1e8-0.5) and otherwise occupies 8 columns with as many decimals as fit (specification predicate coord_ok, including the '
+  'one-fewer allowance just below a power of ten); the whole specification predicate line_ok holds of the exported line; float() of a written '
+  'field is the printed decimal rounded once to binary64 (relative error 2^-53, proved); the regenerated parser applied to the exported line '
+  'returns the row itself in every integer/text attribute and the printed decimals in the numeric ones, hence approx_row (the property\'s own '
+  'comparison) holds; exporting the re-read row gives the identical line unless a coordinate moved onto a format-switch threshold or is a '
+  'negative zero (both shown by examples); canonical records are reproduced. The round trip is refuted for an empty chain identifier (F24). '
+  'Harness: implementation = extracted model and executable specification on threshold windows, wide tables, empty-chain tables, exportpdb '
+  'files and bundled records.',
+  'regenerated Gallina model + Coq theorems (digit/rounding lemmas, lra cell decomposition, string lemmas) + executable Coq spec applied to implementation output',
+  'CPython str.format / float() / str.strip() modelled in PyLib.v (fixed-point formatting and parsing correctly rounded on exact rationals). The '
+  'round-trip theorems assume text attributes that str.strip() leaves unchanged and a non-empty chain. exportpdb file handling and sql2pdb = '
+  'map over the selected rows are tied by correspondence. Known finding F24. Print Assumptions: closed under the global context.'),
  'C01': ('§5.C01',
   'Slice table, column types, record prefixes, blank-field defaults, 80-column guard, segID and element rules are regenerated from the '
   'source on every run; Coq proves for every printable record that the regenerated parser returns exactly the row (or error) of the wwPDB '
